@@ -281,7 +281,9 @@ fn strip_module_prefix(p: &mut syn::Path, cx: &mut Ctx, is_type: bool) {
     let first = p.segments[0].ident.to_string();
     let lower = |s: &syn::PathSegment| s.ident.to_string().chars().next().map(|c| c.is_lowercase()).unwrap_or(false);
     if !lower(&p.segments[0]) { return; }
-    if !STRIP_ROOTS.contains(&first.as_str()) && !cx.local_mods.contains(&first) {
+    // a top-level module of the crate under extraction (`src/<first>.rs` or `src/<first>/`) is crate-local as well
+    let crate_mod = cx.repo.join("src").join(format!("{}.rs", first)).exists() || cx.repo.join("src").join(&first).is_dir();
+    if !STRIP_ROOTS.contains(&first.as_str()) && !cx.local_mods.contains(&first) && !crate_mod {
         cx.err(format!("outside dialect: no {} rule for `{}`", if is_type { "type" } else { "path" }, nospace(&p.to_token_stream().to_string())));
         return;
     }
@@ -337,6 +339,30 @@ pub fn a6_poll_to_await(f: &mut crate::FnLike, cx: &mut Ctx) -> bool {
     // output type: Poll<O> -> O
     let out: syn::Type = match &f.sig.output { syn::ReturnType::Type(_, t) => match &**t { syn::Type::Path(tp) => { let seg = tp.path.segments.last().unwrap(); if seg.ident != "Poll" { return false; } match &seg.arguments { syn::PathArguments::AngleBracketed(ab) => match ab.args.first() { Some(syn::GenericArgument::Type(t)) => t.clone(), _ => return false }, _ => return false } } _ => return false }, _ => return false };
     let mut stmts: Vec<Stmt> = f.block.stmts.iter().filter(|s| match s { Stmt::Macro(m) => !is_dropped_macro(&m.mac), _ => true }).cloned().collect();
+    // `let this = self.get_mut();` first: `this` is `self`
+    if stmts.len() >= 2 {
+        if let Stmt::Local(l) = &stmts[0] { if let (syn::Pat::Ident(pi), Some(init)) = (&l.pat, &l.init) {
+            if nospace(&init.expr.to_token_stream().to_string()) == "self.get_mut()" && init.diverge.is_none() {
+                let name = pi.ident.to_string();
+                fn ren(ts: TokenStream, from: &str) -> TokenStream { ts.into_iter().map(|t| match t { TokenTree::Ident(i) if i == from => TokenTree::Ident(proc_macro2::Ident::new("self", i.span())), TokenTree::Group(g) => { let mut ng = proc_macro2::Group::new(g.delimiter(), ren(g.stream(), from)); ng.set_span(g.span()); TokenTree::Group(ng) } o => o }).collect() }
+                let rest: Vec<Stmt> = stmts[1..].iter().filter_map(|st| syn::parse2::<Stmt>(ren(st.to_token_stream(), &name)).ok()).collect();
+                if rest.len() == stmts.len() - 1 { stmts = rest; }
+            }
+        } }
+    }
+    // `match <poll> { Poll::Ready(p) => Poll::Ready(F), Poll::Pending => Poll::Pending }` is `<poll>.map(|p| F)`
+    if stmts.len() == 1 {
+        if let Stmt::Expr(Expr::Match(mt), None) = &stmts[0] { if mt.arms.len() == 2 {
+            let last = |p: &syn::Path| p.segments.last().map(|s| s.ident.to_string()).unwrap_or_default();
+            let mut ready: Option<(syn::Pat, Expr)> = None; let mut pending_ok = false;
+            for a in &mt.arms { if a.guard.is_some() { continue; } match &a.pat {
+                syn::Pat::TupleStruct(ts) if last(&ts.path) == "Ready" && ts.elems.len() == 1 => { if let Expr::Call(c) = &*a.body { if let Expr::Path(fp) = &*c.func { if last(&fp.path) == "Ready" && c.args.len() == 1 { ready = Some((ts.elems[0].clone(), c.args[0].clone())); } } } }
+                syn::Pat::Path(pp) if last(&pp.path) == "Pending" => { if let Expr::Path(bp) = &*a.body { if last(&bp.path) == "Pending" { pending_ok = true; } } }
+                syn::Pat::Ident(pi) if pi.ident == "Pending" => { if let Expr::Path(bp) = &*a.body { if last(&bp.path) == "Pending" { pending_ok = true; } } }
+                _ => {} } }
+            if let (Some((p, f)), true) = (ready, pending_ok) { let scrut = &mt.expr; let st: Stmt = Stmt::Expr(parse_quote!(#scrut.map(|#p| #f)), None); stmts = vec![st]; }
+        } }
+    }
     // `let x = <poll>; x.map(..)` reads the same as `<poll>.map(..)`
     if stmts.len() == 2 {
         if let (Stmt::Local(l), Stmt::Expr(Expr::MethodCall(m2), None)) = (&stmts[0], &stmts[1]) {
@@ -902,10 +928,41 @@ impl<'c> VisitMut for Rw<'c> {
                 // enclosing generics explicitly, one `_` per capture whose type stays generic
                 let gi: Vec<syn::Ident> = self.gen_idents.iter().map(|g| ident(g)).collect();
                 let n_generic = self.lifted_closures.last().unwrap().captures.iter().filter(|c| !self.typed_caps.contains(&format!("{} {}", cname, c.replace("self.", "self_")))).count();
+                // a single renamed capture (rule L1q: one contract name missing, one capture the contract does not name) is typed under
+                // its contract name by the emitter, so it is no generic hole here either
+                let n_generic = {
+                    let caps: Vec<String> = self.lifted_closures.last().unwrap().captures.iter().map(|c| c.replace("self.", "self_")).collect();
+                    let pre = format!("{} ", cname);
+                    let expected: Vec<String> = self.typed_caps.iter().filter_map(|t| t.strip_prefix(&pre).map(|x| x.to_string())).collect();
+                    let missing = expected.iter().filter(|x| !caps.contains(x)).count();
+                    let extra: Vec<&String> = caps.iter().filter(|c| !expected.contains(c)).collect();
+                    let renamed_weak = extra.len() == 1 && self.local_types.get(extra[0]).map(|t| t.starts_with('?')).unwrap_or(false);
+                    if missing == 1 && extra.len() == 1 && !renamed_weak && n_generic > 0 { n_generic - 1 } else { n_generic }
+                };
                 let holes: Vec<TokenStream> = (0..n_generic).map(|_| quote!(_)).collect();
                 *e = parse_quote!(#ctor::<#(#gi,)* #(#holes),*>(#(#args),*));
             } else { *e = parse_quote!(#ctor(#(#args),*)); }
             return;
+        }
+        // F3: the verifier has no `continue` in `for` loops. At the top level of a `for` body, `let P = e else { continue; }; rest` is
+        // `if let P = e { rest }`, and `if c { continue; } rest` is `if !(c) { rest }` (the same control flow, written without the jump)
+        if let Expr::ForLoop(fl) = e {
+            fn is_continue_block(b: &syn::Block) -> bool { b.stmts.len() == 1 && matches!(&b.stmts[0], Stmt::Expr(Expr::Continue(c), _) if c.label.is_none()) }
+            fn fold(stmts: &[Stmt]) -> Vec<Stmt> {
+                for (i, st) in stmts.iter().enumerate() {
+                    if let Stmt::Local(l) = st { if let Some(init) = &l.init { if let Some((_, div)) = &init.diverge { if let Expr::Block(db) = &**div { if is_continue_block(&db.block) {
+                        let pat = &l.pat; let ex = &init.expr; let rest = fold(&stmts[i + 1..]);
+                        let mut out: Vec<Stmt> = stmts[..i].to_vec(); out.push(Stmt::Expr(parse_quote!(if let #pat = #ex { #(#rest)* }), None)); return out;
+                    } } } } }
+                    if let Stmt::Expr(Expr::If(ifx), _) = st { if ifx.else_branch.is_none() && is_continue_block(&ifx.then_branch) && !matches!(&*ifx.cond, Expr::Let(_)) {
+                        let c = &ifx.cond; let rest = fold(&stmts[i + 1..]);
+                        let mut out: Vec<Stmt> = stmts[..i].to_vec(); out.push(Stmt::Expr(parse_quote!(if !(#c) { #(#rest)* }), None)); return out;
+                    } }
+                }
+                stmts.to_vec()
+            }
+            let folded = fold(&fl.body.stmts);
+            if folded.len() != fl.body.stmts.len() || nospace(&quote!(#(#folded)*).to_string()) != nospace(&{ let st = &fl.body.stmts; quote!(#(#st)*) }.to_string()) { fl.body.stmts = folded; self.cx.fire("F3"); }
         }
         // for loops over an iterator: Verus names the ghost iterator `for x in hx_it: e` (the emitter turns the wrapper into that syntax)
         if let Expr::ForLoop(fl) = e { let it = &fl.expr; if !it.to_token_stream().to_string().starts_with("__hx_iter") { let w: Expr = parse_quote!(__hx_iter(#it)); fl.expr = Box::new(w); } }
@@ -929,6 +986,28 @@ impl<'c> VisitMut for Rw<'c> {
         visit_mut::visit_expr_mut(self, e);
 
         // ---------------- post-order ----------------
+        // M5: a match-arm guard that calls something with an effect on the ghost world (`Some(a) if a.running() => ..`): the verifier does not
+        // track state changes made inside a guard. `P if G => A, _ => B` (the guarded arm directly before a final catch-all) is
+        // `P => if G { A } else { B }, _ => B`; any other shape with an effectful guard is outside the dialect
+        if let Expr::Match(mt) = e {
+            let effectful = |g: &Expr| nospace(&g.to_token_stream().to_string()).contains("Tracked(w)");
+            let n = mt.arms.len();
+            let idx: Vec<usize> = (0..n).filter(|i| mt.arms[*i].guard.as_ref().map(|(_, g)| effectful(g)).unwrap_or(false)).collect();
+            if !idx.is_empty() {
+                let last_is_catch_all = n >= 2 && mt.arms[n - 1].guard.is_none() && matches!(&mt.arms[n - 1].pat, syn::Pat::Wild(_));
+                if idx.len() == 1 && idx[0] == n - 2 && last_is_catch_all {
+                    let b = (*mt.arms[n - 1].body).clone();
+                    let arm = &mut mt.arms[n - 2];
+                    let (_, g) = arm.guard.take().unwrap();
+                    let a = (*arm.body).clone();
+                    arm.body = Box::new(parse_quote!(if #g { #a } else { #b }));
+                    if arm.comma.is_none() { arm.comma = Some(Default::default()); }
+                    self.cx.fire("M5");
+                } else {
+                    self.cx.err(format!("outside dialect: a match guard with an effect on the ghost world in {}", self.fn_name));
+                }
+            }
+        }
         // N1 on expression paths
         if let Expr::Path(p) = e { if p.qself.is_none() { self.map_expr_path(&mut p.path); } }
         if let Expr::Struct(s) = e { self.map_expr_path(&mut s.path); }
